@@ -172,13 +172,15 @@ CHECKS = {
    {"pkg": "core", "fn": "VerifH_IncludeTargetKinds", "quick": {"N": 3}, "thorough": {"N": 5}, "stubsets": ["vfs", "location"]},
    STACKINV,
    {"pkg": "core", "fn": "VerifH_IncludeQuoted", "quick": {"N": 3}, "thorough": {"N": 5}, "stubsets": ["vfs", "location"]},
-   {"pkg": "core", "fn": "VerifH_IncludeEquivalence", "quick": {"KR": 3}, "thorough": {"KR": 4}, "stubsets": ["location", "vfs-files"], "full_schema_lib": True},
+   {"pkg": "core", "fn": "VerifH_IncludeEquivalence", "quick": {"KR": 3, "NEST": 0}, "thorough": {"KR": 4, "NEST": 0}, "stubsets": ["location", "vfs-files"], "full_schema_lib": True},
+   {"pkg": "core", "fn": "VerifH_IncludeEquivalence", "quick": {"KR": 2, "NEST": 1}, "thorough": {"KR": 3, "NEST": 1}, "stubsets": ["location", "vfs-files"], "full_schema_lib": True},
+   {"pkg": "core", "fn": "VerifH_IncludeEquivalence", "quick": {"KR": 2, "NEST": 2}, "thorough": {"KR": 3, "NEST": 2}, "stubsets": ["location", "vfs-files"], "full_schema_lib": True},
   ],
   "assumptions": [
    "os.Stat contract: the directory of the including file and its ancestors exist and are directories; any other path is absent, a directory, a regular file or fails otherwise",
    "names are bare parameters: bytes that terminate or quote a parameter (blank, line end, '#', '\"', NUL) are excluded",
   ],
-  "not_decided": ["textual-inclusion equivalence beyond the shape of VerifH_IncludeEquivalence (one run of 1..KR lines under a URL / method, included from two places of one file; no nested includes)", "symbolic links / OS path semantics", "names longer than N bytes"],
+  "not_decided": ["textual-inclusion equivalence beyond the shapes of VerifH_IncludeEquivalence (one run of 1..KR lines under a URL / method, included from two places of one file: directly, through one intermediate file, or cut into two files included one after the other)", "symbolic links / OS path semantics", "names longer than N bytes"],
  },
  "C09": {
   "title": "Accepted means serialisable",
